@@ -9,7 +9,9 @@ props = [json.loads(l) for l in (V / "properties.jsonl").read_text().splitlines(
 _ODE_NOTE = ("the strict C reader is trusted for the statement shapes it accepts; name->slot binding goes through Species.alias and the "
              "emitted IDX_ macros; rate coefficients are symbols held fixed; cusparse output is read as text only")
 _ODE_TECH = ("TLA+ spec OdeGen.tla model-checked with TLC over all small networks; TLC-chosen and random networks rendered by the real "
-             "generator for dense/sparse/cusparse/odeint, read back with a strict C reader and validated event by event by Trace_OdeGen.tla")
+             "generator for dense/sparse/cusparse/odeint, read back with a strict C reader and validated event by event by Trace_OdeGen.tla "
+             "(conformance, observe, structure and run-time traces: the compiled cvode-dense and odeint right-hand sides / Jacobians are "
+             "evaluated at the same states against API stand-ins and compared)")
 CHECKS = {
     "C11": dict(level="model_checking", design_ref="DESIGN.md §4 C11, §11",
         technique="TLA+ spec GrainLaws.tla (law tree or refusal for every (dust model, reaction type); binding-energy lookup as a small "
@@ -21,10 +23,12 @@ CHECKS = {
              "refused, and reads / updates of the binding energy on one object must follow the lookup order.",
         note="law trees are my transcription of HH93 and of UCLCHEM v1.3's RR07 routines in the generator's operand order (papers not "
              "available offline): where I cannot vouch for a constant independently the tree pins the current behaviour"),
-    "C20": dict(level="model_checking", design_ref="DESIGN.md §4 C20, §11",
+    "C20": dict(level="model_checking", design_ref="DESIGN.md §4 C20, §11, §12",
         technique="TLA+ spec ConfigRoundTrip.tla (InitParse -> Content -> RenderRead over token shapes) model-checked with TLC; real "
                   "`naunet init ... --render` runs with the written TOML and the constructor arguments of Network / TemplateLoader "
-                  "captured and judged by Trace_ConfigRoundTrip.tla; rendered tree compared with the equivalent API rendering",
+                  "captured and judged by Trace_ConfigRoundTrip.tla; rendered tree compared with the equivalent API rendering; summary table vs "
+                  "generated headers; bundled examples -> configuration; TLA+ spec Project.tla (project directory over init / edit / render / "
+                  "patch / re-init) model-checked, TLC-simulated histories replayed through the real commands and validated by Trace_Project.tla",
         text="TLC checks RoundTripId for all option vectors with <= 2 tokens per option over the shapes plain / padded / inner blank / "
              "empty; every real run (four project kinds incl. binding energies, yields, shielding, rate and ODE modifiers, cooling, "
              "upper-case elements with replacement; three solver choices) must write exactly the normalised request into the TOML, hand "
@@ -52,7 +56,7 @@ CHECKS = {
              "specification's translation - precedence, right-associativity of **, d/e exponents, intrinsic calls, user variables and "
              "abundance references - or be rejected; all rate expressions of the bundled KROME files keep their value at 8 temperatures.",
         note="my own minimal-parenthesis printer; Python's ** as the Fortran oracle for bundled expressions; rejection is allowed"),
-    "C16": dict(level="model_checking", design_ref="DESIGN.md §4 C16, §11",
+    "C16": dict(level="model_checking", design_ref="DESIGN.md §4 C16, §11, §12",
         technique="TLA+ spec Renorm.tla (coefficient tables, Coupling/Additive, integer lemma by Cramer's rule, SetReference/Renorm/perturb "
                   "state machine) model-checked with TLC; emitted tables of both back-ends parsed and compared by TLC; the generated "
                   "Renorm compiled against the SUNDIALS stand-in and driven through call sequences, judged by Trace_Renorm.tla",
@@ -73,7 +77,7 @@ CHECKS = {
              "classes in the thorough tier).",
         note="law trees are my transcription of the published laws in the generator's operand order; a structural mismatch is re-examined "
              "numerically against closed-form laws: value-equal => stale table (exit 2), else VIOLATION"),
-    "C18": dict(level="model_checking", design_ref="DESIGN.md §4 C18, §11",
+    "C18": dict(level="model_checking", design_ref="DESIGN.md §4 C18, §11, §12",
         technique="TLA+ spec RoundTrip.tla (write / read / edit / write / read with an abstract printing function) model-checked with TLC; "
                   "real networks from all formats and the API cycled through the native format, files decoded by an independent "
                   "reader, exported networks re-read and their rate statements compared with the direct rendering; judged by "
@@ -94,10 +98,11 @@ CHECKS = {
              "directive lines, mid-file @format changes) must be decoded to the reactions the line machine yields, field by field.",
         note="column-exact decoding rests on my transcription of the six layouts (encode->decode identity); TLC decides the line machine, "
              "the code tables and the comparison"),
-    "C09": dict(level="model_checking", design_ref="DESIGN.md §4 C09, §11",
+    "C09": dict(level="model_checking", design_ref="DESIGN.md §4 C09, §11, §12",
         technique="TLA+ spec Index.tla (alias construction, (connectivity, name) order, artefact views) model-checked with TLC; networks over "
-                  "a pool of species with known attributes rendered; identifier tables of five artefacts read back and judged by "
-                  "Trace_Index.tla",
+                  "a pool of species with known attributes (incl. the upper-case convention with and without replacement) rendered; identifier "
+                  "tables of five artefacts read back and judged by Trace_Index.tla; TLA+ spec PatchSpecies.tla (field types and species count "
+                  "of the simulation-code patch) model-checked, real patch renderings validated by Trace_PatchSpecies.tla",
         text="TLC checks AliasLegal / AliasInjective / Bijection / ViewsAgree for all small species sets of a hazard-rich universe; for "
              "every rendered network the order must be the (connectivity, name) order with independently computed connectivity, and the "
              "identifiers of the C macros, Python index constants, Python lists, configuration summary and Enzo table must be legal, "
@@ -112,22 +117,24 @@ CHECKS = {
              "and compares element counts, phase/group, grain/group, charge, is-atom and mass number, the intended composition and gas "
              "counterpart for canonical names, and rejection of names with a foreign character.",
         note="pseudo-element patterns treated as literals; mass numbers read independently from the repository's tables"),
-    "C06": dict(level="model_checking", design_ref="DESIGN.md §4 C06, §11",
+    "C06": dict(level="model_checking", design_ref="DESIGN.md §4 C06, §11, §12",
         technique="TLA+ spec Rates.tla (window guard + zero-initialised k[] + override) model-checked with TLC over all window shapes and "
                   "temperatures; files of six formats encoded with every window spelling, read and rendered by the real code; emitted "
-                  "guards parsed strictly and judged by Trace_Rates.tla at boundary probe temperatures",
+                  "guards parsed strictly and judged by Trace_Rates.tla at boundary probe temperatures; the compiled generated Fex called at a "
+                  "sequence of temperatures in one process (run-time traces); APA_Rates.tla: the window semantics for every integer "
+                  "temperature and cut point with Apalache",
         text="TLC checks OutsideIsZero / InsideIsLaw / NoWindowAlwaysActive / Partition (adjacent windows: exactly one active at every "
              "temperature incl. the cut points) on an integer axis; every emitted rate statement's guard must mean Tmin <= T < Tmax of the "
              "DECLARED window at T-1, T, T+1 of both bounds, 0 and a huge T, and every consumer must zero-initialise a non-static k[].",
         note="modifier-overridden reactions are judged by C13; temperatures scaled by 100; zero-initialisation observed textually"),
-    "C13": dict(level="model_checking", design_ref="DESIGN.md §4 C13, §11",
+    "C13": dict(level="model_checking", design_ref="DESIGN.md §4 C13, §11, §12",
         technique="TLA+ specs Rates.tla (Override / re-index rule) and OdeGen.tla (Modifier action) model-checked with TLC; encoded "
                   "networks with index maps and modifier sets rendered by the real code and judged by Trace_Rates.tla / Trace_OdeGen.tla",
         text="TLC checks OnlyTargetsChanged over all index maps (absent/present/shared/all -1) x key sets, and the modifier delta of the "
              "ODE accumulation; each emitted rate statement must be overridden iff its (re-)index is a key, with that key's text, and "
              "each ODE-modifier term must be + (factor) * prod(deps) on the named species with the exact derivative terms.",
-        note="the configuration-file path of the modifiers is covered by C20's check when built"),
-    "C17": dict(level="model_checking", design_ref="DESIGN.md §4 C17, §11",
+        note="the configuration-file path of the modifiers is covered by C20's check (numeric-zero modifier in Project.tla's description 3)"),
+    "C17": dict(level="model_checking", design_ref="DESIGN.md §4 C17, §11, §12",
         technique="TLA+ spec Globals.tla (installed-context model of the process-global tables) model-checked with TLC; TLC-simulated "
                   "interleavings of operations on two networks replayed each in one fresh Python process; every render compared with "
                   "a fresh-process render of that network's own description under three hash seeds; judged by Trace_Globals.tla",
@@ -181,9 +188,10 @@ CHECKS = {
              "report is checked against the model and against the declarative definition by TLC.",
         note="hash keys of reactions are modelled as the multisets of species classes (the repaired __hash__)"),
     "C19": dict(
-        level="model_checking", design_ref="DESIGN.md §4 C19, §11",
+        level="model_checking", design_ref="DESIGN.md §4 C19, §11, §12",
         technique="TLA+ spec Solve.tla/SolveOdeint.tla model-checked with TLC; TLC-simulated behaviours replayed as fault scripts "
-                  "into the compiled generated Solve; recorded API-call traces validated by Trace_Solve.tla",
+                  "into the compiled generated Solve; recorded API-call traces validated by Trace_Solve.tla; APA_Solve.tla: inductive "
+                  "invariant of Solve.tla for every requested interval discharged with Apalache",
         text="TLC explores every fault sequence of the recovery ladder (5 levels, all flags, all partial progresses in ticks) and checks "
              "ExactSpan/NoOvershoot/FailOnBadFlag/InitialLogged + termination; the real generated naunet.cpp (cvode dense+sparse, odeint, "
              "python wrappers) is compiled against a scripted integrator stand-in and (i) driven along TLC's behaviours, (ii) driven by "
